@@ -106,7 +106,55 @@ def sensitivity(args):
     return 0 if not missed else 2
 
 
+def soundness(args):
+    """Behaviour-preserving refactorings: every check must stay silent."""
+    from selftest.refactors import REFACTORS
+    only = os.environ.get("VERIF_REFACTORS")
+    base = "/dev/shm" if os.path.isdir("/dev/shm") else "/var/tmp"
+    scratch = os.path.join(base, f"twv-ref-{os.getpid()}")
+    bad, total, rows = 0, 0, []
+    try:
+        for r in REFACTORS:
+            if only and not any(r["id"].startswith(x) for x in only.split(",")):
+                continue
+            shutil.rmtree(scratch, ignore_errors=True)
+            shutil.copytree("/repo/src", os.path.join(scratch, "src"), ignore=shutil.ignore_patterns("__pycache__"))
+            stale = False
+            for f, old, new in r["edits"]:
+                path = os.path.join(scratch, "src", f)
+                s = open(path).read()
+                if s.count(old) != 1:
+                    stale = True
+                    break
+                open(path, "w").write(s.replace(old, new))
+            if stale:
+                print(f"{r['id']:40s} STALE pattern")
+                bad += 1
+                continue
+            env = dict(os.environ, VERIF_REPO=os.path.join(scratch, "src"), PYTHONHASHSEED="0")
+            for prop in r["props"]:
+                total += 1
+                t0 = time.time()
+                p = subprocess.run([os.path.join(HERE, "vcheck"), prop, "--no-evidence"], env=env, capture_output=True,
+                                   text=True, timeout=1800)
+                ok = p.returncode == 0 and "VIOLATION" not in p.stdout
+                bad += 0 if ok else 1
+                rows.append(dict(id=r["id"], prop=prop, silent=ok, exit=p.returncode, seconds=round(time.time() - t0, 1)))
+                print(f"{r['id']:40s} {prop} {'silent' if ok else 'ALARM (exit %d)' % p.returncode} ({time.time() - t0:.0f}s)", flush=True)
+                if not ok:
+                    print("\n".join(l for l in p.stdout.splitlines() if "iolation" in l or "HARNESS" in l)[:1500])
+                    print(p.stderr[-800:])
+    finally:
+        shutil.rmtree(scratch, ignore_errors=True)
+    print(f"soundness: {total - bad}/{total} refactor x check combinations stayed silent")
+    with open(os.path.join(HERE, "selftest", "last_soundness.json"), "w") as fh:
+        json.dump(rows, fh, indent=1)
+    return 0 if bad == 0 else 2
+
+
 def main(name, args):
+    if name == "soundness":
+        return soundness(args)
     if name == "determinism":
         return determinism(args)
     if name == "sensitivity":
